@@ -539,3 +539,269 @@ pub fn cyc_case(rt: &Runtime<NoCtx>, drv: &mut Driver, ranks: &Option<Ranks>, se
     });
     judge_mutant(rt, &msrc, "value-cycle", rule, input, rep);
 }
+
+// ------------------------------------------------------------------ type cycles
+//
+// The sibling rule "types are not recursive" (src/typechecker/type_cycle.rs: a
+// depth-first search with temporary / permanent marks over a HashMap, so the
+// order of the walk differs from compile to compile): the same enumeration —
+// every shape of cycle between type declarations x every way a type can
+// mention another (directly, as the argument of Option / List / Verdict, nested)
+// x the closing mention as the type-breaking edit, with decoy fields that make
+// the search meet an already explored type (or generic) first.
+
+/// how a field mentions its target
+pub const WRAPPERS: u8 = 6;
+
+fn wrap(w: u8, t: Ty) -> Ty {
+    match w % WRAPPERS {
+        0 => t,
+        1 => Ty::Opt(Box::new(t)),
+        2 => Ty::List(Box::new(t)),
+        3 => Ty::Opt(Box::new(Ty::List(Box::new(t)))),
+        4 => Ty::Verdict(Box::new(I32), Box::new(t)),
+        _ => Ty::List(Box::new(Ty::Verdict(Box::new(Ty::Opt(Box::new(t))), Box::new(Ty::Bool)))),
+    }
+}
+
+/// (name, number of types, mentions (from, to | 9 = a scalar, wrapper)); the
+/// wrappers of the mentions between types are varied on top of the given one
+pub const TSHAPES: &[(&str, usize, &[(usize, usize, u8)])] = &[
+    ("t-self", 1, &[(0, 0, 0)]),
+    ("t-self-after-explored-generic", 1, &[(0, 9, 1), (0, 9, 2), (0, 9, 4), (0, 0, 1)]),
+    ("t-two", 2, &[(0, 1, 0), (1, 0, 0)]),
+    ("t-two-after-explored-generic", 2, &[(0, 9, 1), (0, 1, 0), (1, 9, 2), (1, 0, 1)]),
+    ("t-three", 3, &[(0, 1, 0), (1, 2, 1), (2, 0, 2)]),
+    ("t-diamond", 4, &[(0, 1, 0), (0, 2, 1), (1, 3, 2), (2, 3, 0), (3, 0, 3)]),
+    ("t-shared-then-cycle", 3, &[(0, 2, 0), (1, 2, 1), (2, 9, 1), (1, 0, 0), (0, 1, 4)]),
+    ("t-mention-twice", 2, &[(0, 1, 1), (0, 1, 2), (1, 0, 5)]),
+];
+
+#[derive(Clone, Debug)]
+pub struct TSpec {
+    /// per type: an enum (else a record)
+    pub enums: Vec<bool>,
+    pub nums: Vec<usize>,
+    pub mentions: Vec<(usize, usize, u8)>,
+    pub order: Vec<usize>,
+}
+
+impl TSpec {
+    pub fn prog(&self) -> Prog {
+        let mut decls = Vec::new();
+        for &i in &self.order {
+            let mut fields: Vec<(usize, Ty)> = Vec::new();
+            for (k, &(from, to, w)) in self.mentions.iter().enumerate() {
+                if from == i {
+                    let target = if to == 9 { I32 } else { Ty::Named(self.nums[to]) };
+                    fields.push((k, wrap(w, target)));
+                }
+            }
+            if fields.is_empty() {
+                fields.push((90, I32));
+            }
+            if self.enums[i] {
+                let mut variants: Vec<(usize, Vec<Ty>)> = fields.into_iter().map(|(k, t)| (k, vec![t])).collect();
+                variants.push((91, vec![]));
+                decls.push(Decl::Enum { name: self.nums[i], variants });
+            } else {
+                decls.push(Decl::Rec { name: self.nums[i], fields });
+            }
+        }
+        decls.push(Decl::Fn {
+            name: 0,
+            params: vec![],
+            ret: I32,
+            body: Block { stmts: vec![], last: Some(Box::new(Expr::IntLit(0, Some(6)))) },
+        });
+        Prog { decls }
+    }
+
+    pub fn cyclic(&self) -> bool {
+        let n = self.enums.len();
+        (0..n).any(|s| {
+            let mut seen = vec![false; n];
+            let mut todo: Vec<usize> = self.mentions.iter().filter(|m| m.0 == s && m.1 != 9).map(|m| m.1).collect();
+            while let Some(x) = todo.pop() {
+                if !seen[x] {
+                    seen[x] = true;
+                    todo.extend(self.mentions.iter().filter(|m| m.0 == x && m.1 != 9).map(|m| m.1));
+                }
+            }
+            seen[s]
+        })
+    }
+}
+
+/// (shape, removed mention, variation 0..WRAPPERS*2)
+pub fn trep_table() -> Vec<(usize, usize, usize)> {
+    let mut t = Vec::new();
+    for (si, (_, n, ms)) in TSHAPES.iter().enumerate() {
+        for mi in 0..ms.len() {
+            if ms[mi].1 == 9 {
+                continue;
+            }
+            let base = TSpec {
+                enums: vec![false; *n],
+                nums: (0..*n).collect(),
+                mentions: ms.iter().enumerate().filter(|(j, _)| *j != mi).map(|(_, m)| *m).collect(),
+                order: (0..*n).collect(),
+            };
+            if base.cyclic() {
+                continue;
+            }
+            for v in 0..(WRAPPERS as usize * 2) {
+                t.push((si, mi, v));
+            }
+        }
+    }
+    t
+}
+
+pub struct TCase {
+    pub what: String,
+    pub base: TSpec,
+    pub mutant: TSpec,
+    pub detail: String,
+}
+
+pub fn trep_case(index: usize) -> Option<TCase> {
+    let (si, mi, v) = *trep_table().get(index)?;
+    let (name, n, ms) = TSHAPES[si];
+    // variation: the closing mention takes every wrapper; kinds and source order alternate
+    let enums: Vec<bool> = (0..n).map(|i| (i + v / WRAPPERS as usize) % 2 == 1).collect();
+    let nums: Vec<usize> = (0..n).map(|i| (i * 7 + index) % POOL).collect();
+    let mut nums_d = nums.clone();
+    for i in 0..n {
+        while (0..i).any(|j| nums_d[j] == nums_d[i]) {
+            nums_d[i] = (nums_d[i] + 1) % POOL;
+        }
+    }
+    let order: Vec<usize> = (0..n).map(|i| (i + index) % n).collect();
+    let all: Vec<(usize, usize, u8)> =
+        ms.iter().enumerate().map(|(j, m)| (m.0, m.1, if j == mi { (v % WRAPPERS as usize) as u8 } else { m.2 })).collect();
+    let mutant = TSpec { enums: enums.clone(), nums: nums_d.clone(), mentions: all.clone(), order: order.clone() };
+    let base = TSpec { enums, nums: nums_d, mentions: all.iter().enumerate().filter(|(j, _)| *j != mi).map(|(_, m)| *m).collect(), order };
+    Some(TCase {
+        what: format!("{name}:mention{mi}:w{}:{}", v % WRAPPERS as usize, if v >= WRAPPERS as usize { "enum-first" } else { "record-first" }),
+        detail: format!("shape {name}: T{} mentions T{} (wrapper {})", mutant.nums[ms[mi].0], mutant.nums[ms[mi].1], v % WRAPPERS as usize),
+        base,
+        mutant,
+    })
+}
+
+pub fn trandom_case(seed: u64, index: u64) -> Option<TCase> {
+    let mut p = Prng::for_case(seed ^ 0x7C7C, index);
+    let n = 2 + p.below(4) as usize;
+    let enums: Vec<bool> = (0..n).map(|_| p.chance(1, 2)).collect();
+    let mut nums: Vec<usize> = Vec::new();
+    for _ in 0..n {
+        loop {
+            let k = p.below(POOL as u64) as usize;
+            if !nums.contains(&k) {
+                nums.push(k);
+                break;
+            }
+        }
+    }
+    // an acyclic base: mentions only from a type to one later in a random order, plus decoys
+    let mut topo: Vec<usize> = (0..n).collect();
+    for i in (1..n).rev() {
+        topo.swap(i, p.below(i as u64 + 1) as usize);
+    }
+    let mut mentions = Vec::new();
+    for a in 0..n {
+        for b in a + 1..n {
+            if p.chance(2, 5) {
+                mentions.push((topo[a], topo[b], p.below(WRAPPERS as u64) as u8));
+            }
+        }
+        if p.chance(1, 2) {
+            mentions.push((topo[a], 9, 1 + p.below(WRAPPERS as u64 - 1) as u8));
+        }
+    }
+    for i in (1..mentions.len()).rev() {
+        mentions.swap(i, p.below(i as u64 + 1) as usize);
+    }
+    let mut order: Vec<usize> = (0..n).collect();
+    for i in (1..n).rev() {
+        order.swap(i, p.below(i as u64 + 1) as usize);
+    }
+    let base = TSpec { enums, nums, mentions, order };
+    // the edit: a mention from a type to one at or before it in the order
+    let b = p.below(n as u64) as usize;
+    let a = p.below(b as u64 + 1) as usize;
+    let (from, to) = (topo[b], topo[a]);
+    // it closes a cycle only if `to` reaches `from` (or they are the same type)
+    let mut mutant = base.clone();
+    let w = p.below(WRAPPERS as u64) as u8;
+    let at = p.below(mutant.mentions.len() as u64 + 1) as usize;
+    mutant.mentions.insert(at, (from, to, w));
+    if !mutant.cyclic() {
+        return None;
+    }
+    Some(TCase {
+        what: format!("t-random:{}:w{w}", if from == to { "self" } else { "through-others" }),
+        detail: format!("random type declarations: T{} mentions T{} (wrapper {w})", mutant.nums[from], mutant.nums[to]),
+        base,
+        mutant,
+    })
+}
+
+pub fn tcyc_case(rt: &Runtime<NoCtx>, drv: &mut Driver, seed: u64, index: u64, random: bool, rep: &mut Report) {
+    let case = if random { trandom_case(seed, index) } else { trep_case(index as usize) };
+    let Some(case) = case else {
+        rep.hist("tcyc", "edit-closes-no-cycle");
+        return;
+    };
+    let shape = case.what.split(':').next().unwrap_or("").to_string();
+    let base = case.base.prog();
+    let bsrc = base.roto();
+    let d_base = drv.ask(&format!("c07 prog {}", base.sexp()));
+    if d_base != "ok" {
+        rep.hist("tcyc", format!("generator-slip:{d_base}"));
+        if rep.notes.len() < 6 {
+            rep.notes.push(format!("tcyc: generator slip (D says `{d_base}`) {}", case.what));
+        }
+        return;
+    }
+    // the walk order differs from compile to compile (HashMap): compile the well-typed base a few times
+    for _ in 0..3 {
+        match compile(rt, &bsrc, true) {
+            Outcome::Ok => {}
+            Outcome::TypeError(line) => {
+                rep.mismatch(
+                    "a well-typed script (no type mentions itself; accepted by the declarative checker) is rejected by the type checker",
+                    json!({"phase": "tcyc", "what": case.what, "error": line, "src": bsrc, "sexp": base.sexp()}),
+                );
+                return;
+            }
+            other => {
+                rep.hist("tcyc", format!("base-not-compiled:{}", match other { Outcome::Panic(_) => "panic", _ => "other-stage" }));
+                if rep.notes.len() < 6 {
+                    rep.notes.push(format!("tcyc: base script did not compile ({other:?}) {}", case.what));
+                }
+                return;
+            }
+        }
+    }
+    rep.hist("tcyc", format!("base:{shape}:ok"));
+    super::infer::compare(rt, drv, &format!("tcyc-base:{shape}"), &bsrc, &base.sexp(), json!({"tcyc": case.what}), rep);
+    let m = case.mutant.prog();
+    let msrc = m.roto();
+    let d_mut = drv.ask(&format!("c07 prog {}", m.sexp()));
+    let Some(rule) = d_mut.strip_prefix("err ") else {
+        rep.hist("tcyc", format!("not-counted:{d_mut}"));
+        return;
+    };
+    super::infer::compare(rt, drv, &format!("tcyc-mutant:{shape}"), &msrc, &m.sexp(), json!({"tcyc": case.what, "kind": "type-cycle"}), rep);
+    let input: Value = json!({
+        "seed": seed, "index": index, "kind": "type-cycle", "detail": case.detail, "rule": rule, "what": case.what,
+        "src": msrc, "sexp": m.sexp(), "original": bsrc,
+    });
+    // three compiles: three (in general different) walk orders
+    for _ in 0..3 {
+        judge_mutant(rt, &msrc, "type-cycle", rule, input.clone(), rep);
+    }
+    rep.class(format!("tcyc:{}", case.what));
+}
